@@ -1,1 +1,234 @@
-import Depccg.Ja
+/-
+  C14  Rule application is a pure, total, reproducible function; filters only remove.
+  Theorems (statements in Props/C14Defs.lean, lemmas in Proofs/C14Lemmas.lean).
+-/
+import Depccg.Props.C14Defs
+import Depccg.Proofs.C14Lemmas
+
+namespace Depccg.C14
+open Depccg Cat Str Unify
+
+/-- English: the seen set only gates; the key is the pair with `X` and `nb` erased. -/
+theorem seen_gate_en : SeenGateEnStatement := by
+  intro S x y sx sy hx hy
+  rw [clear_nbX_eq] at hx hy
+  cases hx; cases hy
+  rw [applyBinary_eq, applyBinary_eq]
+  simp
+
+/-- Japanese: the seen set only gates; the key is the raw pair. -/
+theorem seen_gate_ja : SeenGateJaStatement := by
+  intro S x y
+  simp only [Ja.applyBinary, inSeen]
+  simp
+
+/-- `clear_features("X","nb")` and `clear_features("nb")` never raise. -/
+theorem clear_total : ClearTotalStatement := fun x =>
+  ⟨⟨_, clear_nbX_eq x⟩, ⟨_, clear_nb_eq x⟩⟩
+
+/-- English results do not depend on `nb` marks (clearing `nb` is idempotent and absorbed by clearing `X`,`nb`). -/
+theorem nb_irrelevant : NbIrrelevantStatement := by
+  intro seen x y x' y' hx hy
+  rw [clear_nb_eq] at hx hy
+  cases hx; cases hy
+  rw [applyBinary_eq, applyBinary_eq]
+  simp only [erase_nb_idem, erase_nbX_nb]
+
+/-- English unary rules return exactly the configured targets, in order. -/
+theorem unary_exact_en : UnaryExactEnStatement := by
+  intro T x
+  simp only [En.applyUnary, lookup]
+  cases h : T.find? fun p => Cat.pyEq p.1 x with
+  | none => rfl
+  | some p =>
+    obtain ⟨a, targets⟩ := p
+    simp [List.map_map, Function.comp_def]
+
+/-- Japanese unary rules return exactly the configured targets, in order. -/
+theorem unary_exact_ja : UnaryExactJaStatement := by
+  intro T x rs h
+  simp only [Ja.applyUnary] at h
+  simp only [lookup]
+  cases hf : T.find? fun p => Cat.pyEq p.1 x with
+  | none => rw [hf] at h; cases h; rfl
+  | some p =>
+    rw [hf] at h
+    obtain ⟨a, targets⟩ := p
+    cases targets with
+    | nil => cases h; rfl
+    | cons t ts =>
+      simp only at h
+      cases hs : Ja.unaryRuleSymbol x with
+      | error e => rw [hs] at h; cases h
+      | ok sym =>
+        rw [hs] at h; cases h
+        simp [List.map_map, Function.comp_def]
+
+/-- Japanese unary rules do not raise when the result atom carries a three-part feature. -/
+theorem unary_total_ja : UnaryTotalJaStatement := by
+  intro T x b k1 v1 k2 v2 k3 v3 h
+  obtain ⟨s, hs⟩ := unaryRuleSymbol_ok x b k1 v1 k2 v2 k3 v3 h
+  simp only [Ja.applyUnary]
+  cases hf : T.find? fun p => Cat.pyEq p.1 x with
+  | none => exact ⟨_, rfl⟩
+  | some p =>
+    obtain ⟨a, targets⟩ := p
+    cases targets with
+    | nil => exact ⟨_, rfl⟩
+    | cons t ts => simp only [hs]; exact ⟨_, rfl⟩
+
+/-- The English binary rules never raise on unary-feature categories with non-empty atom names. -/
+theorem total_en : TotalEnStatement := by
+  intro seen x y hx hy nx ny
+  have h := en_all (erase_kind_false isNb (allUnary_kind hx)) (erase_kind_false isNb (allUnary_kind hy))
+    (erase_nonEmpty isNb nx) (erase_nonEmpty isNb ny)
+  rw [applyBinary_eq]
+  cases seen with
+  | none => exact h
+  | some S =>
+    simp only []
+    split
+    · exact h
+    · exact ⟨_, rfl⟩
+
+/-- The Japanese binary rules never raise on three-part-feature categories. -/
+theorem total_ja : TotalJaStatement := by
+  intro seen x y hx hy
+  have h := ja_all (allTernary_kind hx) (allTernary_kind hy)
+  cases seen with
+  | none => exact h
+  | some S =>
+    simp only [Ja.applyBinary]
+    split
+    · exact h
+    · exact ⟨_, rfl⟩
+
+/-- Success of matching is independent of the visiting order (the no-exception hypotheses are not even needed). -/
+theorem ok_order_independent : OkOrderIndependentStatement := by
+  intro ord px py x y hord _ _
+  constructor
+  · rintro ⟨σ, h⟩
+    obtain ⟨cats1, xf, yf, h1, h2, ha⟩ := (unifyOrd_some_iff ..).1 h
+    obtain ⟨m', hm'⟩ := (agree_some_perm (hord (sharedVars xf yf)) [] []).1 ⟨_, ha⟩
+    exact ⟨⟨σ.cats, m'⟩, (unifyOrd_some_iff ..).2 ⟨cats1, xf, yf, h1, h2, hm'⟩⟩
+  · rintro ⟨σ, h⟩
+    obtain ⟨cats1, xf, yf, h1, h2, ha⟩ := (unifyOrd_some_iff ..).1 h
+    obtain ⟨m', hm'⟩ := (agree_some_perm (hord (sharedVars xf yf)) [] []).2 ⟨_, ha⟩
+    exact ⟨⟨σ.cats, m'⟩, (unifyOrd_some_iff ..).2 ⟨cats1, xf, yf, h1, h2, hm'⟩⟩
+
+/-- Without a conflict the bindings are independent of the visiting order. -/
+theorem order_irrelevant : OrderIrrelevantStatement := by
+  intro ord px py x y k hord hnc σ τ hσ hτ
+  obtain ⟨cats1, xf, yf, h1, h2, ha⟩ := (unifyOrd_some_iff ..).1 hσ
+  obtain ⟨cats1', xf', yf', h1', h2', ha'⟩ := (unifyOrd_some_iff ..).1 hτ
+  rw [h1] at h1'; cases h1'
+  rw [h2] at h2'
+  have ec : σ.cats = τ.cats := by injection h2' with _ h; injection h
+  have ey : yf = yf' := by injection h2' with _ h; injection h
+  subst ey
+  have hc : NoConf xf yf (sharedVars xf yf) := hnc cats1 xf σ.cats yf h1 h2
+  have hperm := hord (sharedVars xf yf)
+  have hm : ∀ f, Dict.get? σ.mapping f = Dict.get? τ.mapping f := by
+    intro f
+    apply Option.ext
+    intro g
+    rw [agree_lookup_nil hc (fun v hv => hperm.mem_iff.1 hv) ha,
+        agree_lookup_nil hc (fun v hv => hv) ha']
+    exact ⟨fun ⟨v, hv, h⟩ => ⟨v, hperm.mem_iff.1 hv, h⟩, fun ⟨v, hv, h⟩ => ⟨v, hperm.mem_iff.2 hv, h⟩⟩
+  simp only [Bindings.get, ec]
+  cases Dict.get? τ.cats k with
+  | none => rfl
+  | some c => simp only [subst_congr hm]
+
+/-- With a conflict the order matters: `S[X]/(S[X]\NP[X])` applied to `S[dcl]\NP[b]`. -/
+theorem order_matters_witness : OrderMattersWitnessStatement := by
+  refine ⟨wpx, wpy, wx, wy, ⟨[([97], wS "X"), ([98], wy)], [(.un (some (lit "X")), .un (some (lit "b")))]⟩, ⟨[([97], wS "X"), ([98], wy)], [(.un (some (lit "X")), .un (some (lit "dcl")))]⟩, ?_, ?_, ?_⟩
+  · rfl
+  · rfl
+  · decide
+
+/-! ### non-vacuity -/
+
+section examples
+
+/-- `S[dcl]/NP[nb]` and `NP` -/
+private def exX : Cat := .fn (wS "dcl") cSlash (wNP "nb")
+private def exY : Cat := .atom (lit "NP") (.un none)
+/-- the key under which the pair is looked up: `S[dcl]/NP` , `NP` -/
+private def exKey : Cat × Cat := (.fn (wS "dcl") cSlash (.atom (lit "NP") (.un none)), exY)
+
+-- the hypotheses of `seen_gate_en` are met and the gate is open for the erased pair ...
+example : Cat.clear nbX exX = .ok exKey.1 ∧ Cat.clear nbX exY = .ok exKey.2 := by decide
+example : inSeen [exKey] exKey.1 exKey.2 = true := by decide
+example : En.applyBinary (some [exKey]) exX exY =
+    .ok [⟨wS "dcl", lit "fa", lit ">", true⟩] := by decide +kernel
+-- ... closed for the raw pair (the `nb` mark is not part of the key) and for an empty set
+example : inSeen [(exX, exY)] exKey.1 exKey.2 = false := by decide
+example : En.applyBinary (some [(exX, exY)]) exX exY = .ok [] := by decide +kernel
+example : En.applyBinary (some []) exX exY = .ok [] := by decide +kernel
+-- Japanese: the raw pair is the key
+example : Ja.applyBinary (some [(exX, exY)]) exX exY =
+    .ok [⟨wS "dcl", lit "fa", lit ">", false⟩] := by decide +kernel
+example : Ja.applyBinary (some [exKey]) exX exY = .ok [] := by decide +kernel
+
+-- the hypotheses of `total_en` / `total_ja` are satisfiable
+example : AllUnary exX ∧ AllUnary exY ∧ NonEmptyBases exX ∧ NonEmptyBases exY :=
+  ⟨⟨trivial, trivial⟩, trivial, ⟨(by decide : lit "S" ≠ []), (by decide : lit "NP" ≠ [])⟩,
+    (by decide : lit "NP" ≠ [])⟩
+example : AllTernary (Ja.triCat "S" "mod" "nm" "form" "base" "fin" "f") := trivial
+-- and they are needed: an empty atom name makes `_is_punct` raise, mixed feature systems make
+-- `unifies` raise
+example : En.applyBinary none (.atom [] (.un none)) exY = .error .indexError := by decide +kernel
+example : Ja.applyBinary none (.fn (Ja.triCat "S" "mod" "nm" "form" "base" "fin" "f") cSlash
+      (Ja.triCat "NP" "case" "ga" "mod" "nm" "fin" "f")) exY = .error .attributeError := by
+  decide +kernel
+
+-- unary rules: a table with a hit
+example : (En.applyUnary [(exY, [exX, exY])] exY).map (·.cat) = [exX, exY] := by decide +kernel
+example : Ja.resultAtom (.fn (Ja.triCat "S" "mod" "adn" "form" "base" "fin" "f") cSlash exY) =
+    Ja.triCat "S" "mod" "adn" "form" "base" "fin" "f" := rfl
+
+-- `NoConflict` fails for the witness pair (so the hypothesis of `order_irrelevant` is not idle) ...
+example : ¬ NoConflict wpx wpy wx wy := by
+  intro h
+  obtain ⟨px, py, x, y, σ, τ, hσ, hτ, hne⟩ := order_matters_witness
+  -- the witnesses are the ones given in the proof above; restate them explicitly
+  have h1 : unifyOrd List.reverse wpx wpy wx wy =
+      .ok (some ⟨[([97], wS "X"), ([98], wy)], [(.un (some (lit "X")), .un (some (lit "dcl")))]⟩) := rfl
+  have h2 : unify wpx wpy wx wy =
+      .ok (some ⟨[([97], wS "X"), ([98], wy)], [(.un (some (lit "X")), .un (some (lit "b")))]⟩) := rfl
+  have := order_irrelevant List.reverse wpx wpy wx wy [97] (fun l => List.reverse_perm l) h _ _ h1 h2
+  revert this
+  decide
+
+-- ... and holds, with a successful match that instantiates a variable, for `S[X]/NP[X]` applied
+-- to `NP[b]`
+example : NoConflict wpx wpy (.fn (wS "X") cSlash (wNP "X")) (wNP "b") ∧
+    ∃ σ, unify wpx wpy (.fn (wS "X") cSlash (wNP "X")) (wNP "b") = .ok (some σ) ∧
+      σ.get [97] = .ok (wS "b") := by
+  refine ⟨?_, ⟨_, _⟩, rfl, by decide⟩
+  intro cats1 xf cats2 yf h1 h2
+  have e1 : scan wpx (.fn (wS "X") cSlash (wNP "X")) [] [] =
+      (true, [([97], wS "X"), ([98], wNP "X")],
+        [([97], .un (some (lit "X"))), ([98], .un (some (lit "X")))]) := by decide
+  rw [e1] at h1
+  injection h1 with _ h1; injection h1 with hc hx
+  subst hc; subst hx
+  have e2 : scan wpy (wNP "b") [([97], wS "X"), ([98], wNP "X")] [] =
+      (true, [([97], wS "X"), ([98], wNP "b")], [([98], .un (some (lit "b")))]) := by decide
+  rw [e2] at h2
+  injection h2 with _ h2; injection h2 with hc hy
+  subst hc; subst hy
+  have sv : sharedVars [([97], Feat.un (some (lit "X"))), ([98], .un (some (lit "X")))]
+      [([98], .un (some (lit "b")))] = [[98]] := by decide
+  rw [sv]
+  intro v hv w hw a b ha hb _
+  rw [List.mem_singleton] at hv hw
+  subst hv; subst hw
+  rw [ha] at hb
+  injection hb with hb
+  rw [hb]
+
+end examples
+
+end Depccg.C14
